@@ -666,6 +666,43 @@ func runC16(a *Args) error {
 			}
 		}
 		id++
+		// OVerifyAbsent: the same verifier instance, a signature without the attribute
+		if my := id; doVerify && my%7 == 0 && w.Want(my) {
+			format := MtJWS
+			if (my/7)%2 == 1 {
+				format = MtCOSE
+			}
+			if env, ok := vf.envelopeAbsent(format); ok {
+				c := &c16Case{Op: "verify-absent", Depth: d, Root: rootSpell(wd, v), Format: format}
+				errc := "ENone"
+				o := runFs(wd, nil, func() {
+					vr := verifiers[mgrKey{d, v}]
+					if vr == nil {
+						var err error
+						vr, err = verifier.New(vf.policy, vf.store, mgr)
+						if err != nil {
+							panic(fmt.Sprintf("c16: verifier: %v", err))
+						}
+						verifiers[mgrKey{d, v}] = vr
+					}
+					cctx, cancel := context.WithTimeout(ctx, 30*time.Second)
+					defer cancel()
+					_, err := vr.Verify(cctx, vf.desc, env, notation.VerifierVerifyOptions{ArtifactReference: TestRef, SignatureMediaType: format})
+					if err != nil {
+						msg := err.Error()
+						c.ErrText = Short(msg, 240)
+						switch {
+						case strings.Contains(msg, "invalid plugin name"):
+							errc = "EInvalid"
+						case strings.Contains(msg, "plugin"):
+							errc = "EOther"
+						}
+					}
+				})
+				emit(my, c, wd, wname, rname, nil, "OVerifyAbsent", errc, "MNone", o, nil, true)
+			}
+		}
+		id++
 	}
 
 	vf := newVerifyKit()
@@ -867,6 +904,21 @@ func runC16(a *Args) error {
 				installCase(d, 0, false, []srcFile{{fn, file(false, n, 7)}}, false, ow)
 				// candidate position: a non-executable candidate before / after the executable
 				installCase(d, 0, false, []srcFile{{"notation-!", file(false, "!", 7)}, {fn, file(true, n, 7)}, {"notation-zz", file(false, "zz", 7)}}, false, ow)
+			}
+		}
+		// the prefix twice, and not at the start: the name is everything after the FIRST
+		// "notation-" at position 0; the metadata names the tail, the whole rest, or the file
+		for d := 1; d <= 2; d++ {
+			for _, mn := range []string{"fresh", "notation-fresh", "good"} {
+				installCase(d, 0, true, []srcFile{{"notation-notation-" + mn, file(true, mn, 7)}}, false, ow)
+				installCase(d, 0, false, []srcFile{{"notation-notation-" + mn, file(true, mn, 7)}}, false, ow)
+				installCase(d, 0, true, []srcFile{{"notation-notation-" + mn, file(true, "notation-" + mn, 7)}}, false, ow)
+				installCase(d, 0, true, []srcFile{{"xnotation-" + mn, file(true, mn, 7)}}, false, ow)
+				installCase(d, 0, false, []srcFile{{"xnotation-" + mn, file(true, mn, 7)}, {"lib.so", node{}}}, false, ow)
+				installCase(d, 0, true, []srcFile{{"Notation-" + mn, file(true, mn, 7)}}, false, ow)
+				installCase(d, 0, true, []srcFile{{"notation-" + strings.ToUpper(mn), file(true, mn, 7)}}, false, ow)
+				installCase(d, 0, true, []srcFile{{"notation-" + mn + " ", file(true, mn, 7)}}, false, ow)
+				installCase(d, 0, true, []srcFile{{"notation- " + mn, file(true, mn, 7)}}, false, ow)
 			}
 		}
 		// candidate position with a valid name: before, between, after other files
@@ -1110,6 +1162,18 @@ func newVerifyKit() *verifyKit {
 
 // envelope signs an envelope whose critical verificationPlugin attribute is
 // name and returns it with the value notation-core-go reads back from it.
+func (k *verifyKit) envelopeAbsent(format string) ([]byte, bool) {
+	env, err := SignEnvelope(EnvSpec{Format: format, Chain: k.chain, Payload: PayloadFor(k.desc), Scheme: signature.SigningSchemeX509})
+	if err != nil {
+		return nil, false
+	}
+	content, err := CoreVerify(format, env)
+	if err != nil || len(content.SignerInfo.SignedAttributes.ExtendedAttributes) != 0 {
+		return nil, false
+	}
+	return env, true
+}
+
 func (k *verifyKit) envelope(format, name string) ([]byte, string, bool) {
 	env, err := SignEnvelope(EnvSpec{Format: format, Chain: k.chain, Payload: PayloadFor(k.desc), Scheme: signature.SigningSchemeX509,
 		ExtAttrs: []signature.Attribute{{Key: "io.cncf.notary.verificationPlugin", Critical: true, Value: name}}})
